@@ -406,12 +406,53 @@ func TestC05_Cache(t *testing.T) {
 				steps = append(steps, fmt.Sprintf("cleanup=%d", n))
 			},
 			"update": func(t *rapid.T) {
+				prevCmds := cmds
 				cmds = c05DB(t, "cmds2")
-				switch rapid.IntRange(0, 7).Draw(t, "tiny-replacement") {
+				switch rapid.IntRange(0, 9).Draw(t, "tiny-replacement") {
 				case 0:
 					cmds = nil // replaced by an empty database: every cached answer is stale
 				case 1:
 					cmds = cmds[:1]
+				case 2, 3, 4:
+					// nearly the database that was there: the same entries, one of them with a word moved across a
+					// field boundary (keyword <-> tag, command <-> description), its pipeline flag flipped, or two
+					// entries swapped - the same length, the same text taken together, another answer
+					if len(prevCmds) > 0 {
+						cmds = cloneCmds(prevCmds)
+						i := rapid.IntRange(0, len(cmds)-1).Draw(t, "near-entry")
+						c := &cmds[i]
+						c.Keywords, c.Tags = append([]string{}, c.Keywords...), append([]string{}, c.Tags...)
+						switch rapid.IntRange(0, 5).Draw(t, "near-edit") {
+						case 0:
+							if n := len(c.Keywords); n > 0 {
+								c.Tags = append([]string{c.Keywords[n-1]}, c.Tags...)
+								c.Keywords = c.Keywords[:n-1]
+							} else {
+								c.Tags = append(c.Tags, "files")
+							}
+						case 1:
+							if len(c.Tags) > 0 {
+								c.Keywords = append(c.Keywords, c.Tags[0])
+								c.Tags = c.Tags[1:]
+							} else {
+								c.Keywords = append(c.Keywords, "files")
+							}
+						case 2:
+							if fs := strings.Fields(c.Command); len(fs) > 1 {
+								c.Command = strings.Join(fs[:len(fs)-1], " ")
+								c.Description = strings.TrimSpace(fs[len(fs)-1] + " " + c.Description)
+							} else {
+								c.Description += " files"
+							}
+						case 3:
+							c.Pipeline = !c.Pipeline
+						case 4:
+							j := rapid.IntRange(0, len(cmds)-1).Draw(t, "near-swap")
+							cmds[i], cmds[j] = cmds[j], cmds[i]
+						default:
+							c.Niche, c.Platform = strings.Join(c.Platform, " "), strings.Fields(c.Niche)
+						}
+					}
 				}
 				src := gen.Load(t, cmds)
 				if useMon && rapid.Bool().Draw(t, "via-monitor") {
